@@ -8,7 +8,7 @@ from ..selftest import Mutant
 
 ID = "C30"
 TECHNIQUE = "def-use of the read-size hint at every consumer (K5), bound table of every next_read_size return against grammar literals of the same class (linear-expression matcher), guard/raise agreement for _NeedMoreBytes (ast)"
-FLOOR = 26
+FLOOR = 28
 PF = "breezy/bzr/smart/protocol.py"
 MD = "breezy/bzr/smart/medium.py"
 MS = "breezy/bzr/smart/message.py"
